@@ -80,6 +80,17 @@ def _run_props(res, ctx):
                 s = sum(mgr.metrics.data.get(p, {}).get(k, 0) for p in paths)
                 if tot.get(k, 0) != s:
                     res.violation("a total differs from the sum over files", {"program": src, "key": k, "total": tot.get(k), "sum": s})
+            # Props.C12.totals_order_independent on the real code: the same files scanned in reverse order give the same totals
+            mgr2 = b_manager.BanditManager(b_config.BanditConfig(), "file")
+            mgr2.discover_files(list(reversed(paths)))
+            mgr2.files_list = list(reversed(paths))     # discover_files sorts; the order under test is the scan order
+            mgr2.run_tests()
+            C.take_log()
+            tot2 = mgr2.metrics.data["_totals"]
+            res.count("order-reversed-run")
+            if dict(tot2) != dict(tot):
+                res.violation("totals depend on the order in which the files were scanned",
+                              {"program": src, "totals": dict(tot), "totals_reversed_order": dict(tot2)})
             model = None
             if d is not None:
                 reqs = []
